@@ -902,6 +902,10 @@ class Symx:
                     return self.symbol('%s.%s' % (self.lv_name(obj), fld), c.get('ret'))
             if fn is not None and (c['q'] in self.inline or '*' in self.inline) and self.depth < self.inline_depth:
                 return self.inline_call(fn, obj, args, st)
+            summ = getattr(self, 'method_summaries', None) or {}
+            if c['q'] in summ:
+                # caller-supplied summary of an in-repository method (justified by an obligation the caller inherits)
+                return summ[c['q']](self, obj, key, args, st)
             a = [self.sym_or_name(x, st) for x in args]
             self.havoc_mutrefs(c, args, st)
             if not c.get('const') and key is not None:
@@ -927,6 +931,13 @@ class Symx:
         for k2 in list(st.env.keys()):
             if isinstance(k2, str) and k2.startswith(pref):
                 del st.env[k2]
+        # an array-valued object (libphysica::Vector, a local copy of a parameter) is itself changed by a non-const method that is
+        # not inlined: its elements afterwards are unknown, not the ones before the call
+        cur = st.env.get(key)
+        if isinstance(cur, Arr) or (isinstance(cur, Symbol) and not str(cur.name).startswith('obj:')):
+            self._havoc_n = getattr(self, '_havoc_n', 0) + 1
+            a = Arr("%s'%d" % (self.lv_name(obj), self._havoc_n))
+            st.env[key] = a
 
     def op_call(self, e, st):
         c = e.get('callee') or {}
